@@ -171,6 +171,40 @@ REJECTS = {
 BAD_TIMES = ['1', None, [1], 1j]
 
 
+class MyInt(int):
+    pass
+
+
+def integral_types(ctx):
+    """Integral values that are not exactly int (int subclass, IntEnum): same domains as int."""
+    import enum
+    n = 0
+    E = enum.IntEnum('E', {'TEMPO_OVER': 2 ** 24, 'CH_OVER': 300, 'NUM_OVER': 70000, 'MIN_OVER': 60, 'NEG': -1,
+                           'DEN_BAD': 6, 'DEN_OVER': 2 ** 256, 'OK3': 3, 'OK4': 4})
+    bad = [('set_tempo', 'tempo', MyInt(2 ** 24)), ('set_tempo', 'tempo', E.TEMPO_OVER), ('set_tempo', 'tempo', MyInt(-1)),
+           ('channel_prefix', 'channel', MyInt(300)), ('channel_prefix', 'channel', E.CH_OVER), ('midi_port', 'port', E.NEG),
+           ('sequence_number', 'number', E.NUM_OVER), ('sequence_number', 'number', MyInt(65536)),
+           ('smpte_offset', 'minutes', E.MIN_OVER), ('smpte_offset', 'sub_frames', MyInt(100)),
+           ('time_signature', 'denominator', E.DEN_BAD), ('time_signature', 'denominator', MyInt(0)),
+           ('time_signature', 'denominator', E.DEN_OVER), ('time_signature', 'numerator', MyInt(256))]
+    for t, name, v in bad:
+        for entry in ('ctor', 'copy', 'setattr'):
+            judge_reject(ctx, t, name, v, entry)
+            n += 1
+    good = [('set_tempo', {'tempo': MyInt(500)}), ('channel_prefix', {'channel': E.OK3}), ('time_signature', {'denominator': E.OK4}),
+            ('sequence_number', {'number': MyInt(65535)}), ('midi_port', {'port': MyInt(0)})]
+    for t, a in good:
+        judge_message(ctx, t, {k: int(v) for k, v in a.items()})
+        try:
+            m = MetaMessage(t, **a)
+            ctx.check('documented value accepted', m.bytes() == rmeta.encode(t, {k: int(v) for k, v in a.items()}),
+                      f'integral-type-bytes:{t}', {'kind': 'integral', 'type': t}, m.bytes())
+        except Exception as exc:
+            ctx.check('documented value accepted', False, f'integral-type-rejected:{t}', {'kind': 'integral', 'type': t}, repr(exc))
+        n += 1
+    return n
+
+
 def rejections(ctx):
     n = 0
     for (t, name), pool in REJECTS.items():
@@ -386,6 +420,13 @@ def run(ctx):
             for style in ('ascii', 'high', 'random'):
                 judge_message(ctx, t, {attr: text_of(ln, style, rng)}, delta=ln % 200)
                 n += 1
+    if sh == 4 % N:
+        # texts whose encoding starts like a byte-order mark or another charset's signature
+        for text in ('\xef\xbb\xbfabc', '\xef\xbb\xbf', '\xff\xfea\x00', '\xfe\xff\x00a', '\xef\xbb\xbf\xe9', '+ADw-', '\x1b$B',
+                     '\x00\x00\xfe\xff', '\xff\xfe\x00\x00', 'caf\xc3\xa9', '=?utf-8?q?x?='):
+            for t in ('text', 'track_name', 'lyrics'):
+                judge_message(ctx, t, {rmeta.SPECS[t][1][0]: text}, delta=1)
+                n += 1
     if sh == 3 % N:
         for ln in (999999, 1000000):
             judge_message(ctx, 'text', {'text': 'x' * ln})
@@ -395,6 +436,7 @@ def run(ctx):
     n += 1
     if sh == 0:
         n += rejections(ctx)
+        n += integral_types(ctx)
         n += sequencer_specific(ctx)
         n += other_charsets(ctx)
         n += unknown_meta(ctx, rng)
